@@ -1305,6 +1305,7 @@ func (c *c14FnCtx) sliceGuard(v *ast.SliceExpr, stack []ast.Node) string {
 	xs := s.str(v.X)
 	facts, ranges, _ := c.factsN(stack)
 	need := int64(0)
+	highMinus := int64(0)
 	var evs []string
 	check := func(e ast.Expr, isHigh bool) bool {
 		if e == nil {
@@ -1330,9 +1331,8 @@ func (c *c14FnCtx) sliceGuard(v *ast.SliceExpr, stack []ast.Node) string {
 			return true
 		}
 		if es == "len("+xs+")-1" || es == "len("+xs+") - 1" {
-			if need < 1 {
-				need = 1
-			}
+			// x[k:len(x)-1] needs k <= len(x)-1
+			highMinus = 1
 			return true
 		}
 		// i := strings.Index(x, ...) guarded by i >= 0 / i != -1
@@ -1357,6 +1357,7 @@ func (c *c14FnCtx) sliceGuard(v *ast.SliceExpr, stack []ast.Node) string {
 	if !check(v.Low, false) || !check(v.High, true) || v.Max != nil {
 		return ""
 	}
+	need += highMinus
 	if need > 0 {
 		lb, ev := c14lenLower(facts, xs)
 		if int64(lb) < need {
